@@ -221,6 +221,12 @@ def run_one(t):
                 pass
         mon = FaultTableMonitor(w, configured)
         w.monitors.append(mon)
+        # a quarter of the runs: the sending user cancels the transaction at a tape-chosen call (Cancel.request does not go
+        # through the fault handler table: no callback of any kind may fire for it)
+        if t.choose(4, "user cancel") == 3:
+            from props.pops import CancelTrigger
+
+            w.monitors.append(CancelTrigger(ctx, [(1 + t.choose(20, "user cancel after call"), 0, False)]))
         unit = int(max(cfg.ack_s, cfg.nak_s, min(cfg.check_s_recv, 10), min(cfg.check_s_send, 10)) * 1000)
         if sc in ("ack_silence_src", "ack_silence_dst", "nak_limit"):
             kind = {"ack_silence_src": "EOF", "ack_silence_dst": "FIN", "nak_limit": "EOF"}[sc]
